@@ -40,7 +40,7 @@ func init() {
 		},
 		Run: run,
 		Floors: func(t string) map[string]int64 {
-			return map[string]int64{"spelling.esri": 5000, "spelling.ogc": 1000, "unit.foot": 1000, "unit.us_foot": 1000, "towgs84.3": 1000, "towgs84.7": 1000, "towgs84.none": 1000,
+			return map[string]int64{"spelling.esri": 5000, "spelling.ogc": 1000, "section_order.unit_before_parameters": 1000, "unit.foot": 1000, "unit.us_foot": 1000, "towgs84.3": 1000, "towgs84.7": 1000, "towgs84.none": 1000,
 				"proj.merc": 300, "proj.lcc": 300, "proj.aea": 300, "proj.eqdc": 300, "proj.tmerc": 300, "proj.longlat": 300, "registry.names": 100, "registry.equal_pairs": 500, "registry.unequal_pairs": 300, "registry.prj_files": 50}
 		},
 	})
@@ -57,6 +57,7 @@ type sys struct {
 	latMin       float64
 	latMax       float64
 	ogc          bool
+	unitFirst    bool
 }
 
 var F = crsgen.F
@@ -96,12 +97,41 @@ func genSys(r *crsgen.R) *sys {
 	}
 	x0, y0 := fe*s.toMeter, fn*s.toMeter
 	s.lon0 = lon0
-	esri := func(pairs ...string) string {
-		var b strings.Builder
+	// projcs assembles the PROJCS text; the order of the sections varies: ESRI .prj order
+	// (GEOGCS, PROJECTION, PARAMETERs, UNIT), the EPSG-registry order with UNIT before the
+	// PROJECTION, shuffled PARAMETERs, optional AXIS / AUTHORITY clauses at the end.
+	unitFirst := r.Chance(0.35)
+	shuffle := r.Chance(0.4)
+	trailer := ""
+	if r.Chance(0.2) {
+		trailer = `,AXIS["Easting",EAST],AXIS["Northing",NORTH]`
+	}
+	if r.Chance(0.2) {
+		trailer += `,AUTHORITY["EPSG","99999"]`
+	}
+	if unitFirst {
+		s.unitFirst = true
+	}
+	projcs := func(name, projection, unit string, pairs ...string) string {
+		var ps []string
 		for i := 0; i+1 < len(pairs); i += 2 {
-			b.WriteString(`,PARAMETER["` + pairs[i] + `",` + pairs[i+1] + `]`)
+			ps = append(ps, `PARAMETER["`+pairs[i]+`",`+pairs[i+1]+`]`)
 		}
-		return b.String()
+		if shuffle {
+			for i, j := range r.Perm(len(ps)) {
+				ps[i], ps[j] = ps[j], ps[i]
+			}
+		}
+		parts := []string{geog}
+		if unitFirst {
+			parts = append(parts, unit)
+		}
+		parts = append(parts, `PROJECTION["`+projection+`"]`)
+		parts = append(parts, ps...)
+		if !unitFirst {
+			parts = append(parts, unit)
+		}
+		return `PROJCS["` + name + `",` + strings.Join(parts, ",") + trailer + "]"
 	}
 	form := []string{"longlat", "merc", "lcc", "aea", "eqdc", "tmerc"}[r.Intn(6)]
 	s.name = form
@@ -115,12 +145,12 @@ func genSys(r *crsgen.R) *sys {
 	case "merc":
 		k := r.Range(0.5, 1.5)
 		s.proj4 = "+proj=merc +lon_0=" + F(lon0) + " +k_0=" + F(k) + fo4 + ell4 + tw4 + unit4 + " +no_defs"
-		s.wkt = `PROJCS["Verif_Merc",` + geog + `,PROJECTION["Mercator_1SP"]` + esri("False_Easting", F(fe), "False_Northing", F(fn), "Central_Meridian", F(lon0), "Scale_Factor", F(k)) + "," + unitWKT + "]"
+		s.wkt = projcs("Verif_Merc", "Mercator_1SP", unitWKT, "False_Easting", F(fe), "False_Northing", F(fn), "Central_Meridian", F(lon0), "Scale_Factor", F(k))
 		s.dlon, s.latMin, s.latMax = 170, -85, 85
 	case "tmerc":
 		k, l0 := r.Range(0.9, 1.1), r.Range(-80, 80)
 		s.proj4 = "+proj=tmerc +lat_0=" + F(l0) + " +lon_0=" + F(lon0) + " +k_0=" + F(k) + fo4 + ell4 + tw4 + unit4 + " +no_defs"
-		s.wkt = `PROJCS["Verif_TM",` + geog + `,PROJECTION["Transverse_Mercator"]` + esri("False_Easting", F(fe), "False_Northing", F(fn), "Central_Meridian", F(lon0), "Scale_Factor", F(k), "Latitude_Of_Origin", F(l0)) + "," + unitWKT + "]"
+		s.wkt = projcs("Verif_TM", "Transverse_Mercator", unitWKT, "False_Easting", F(fe), "False_Northing", F(fn), "Central_Meridian", F(lon0), "Scale_Factor", F(k), "Latitude_Of_Origin", F(l0))
 		s.dlon, s.latMin, s.latMax = 3.5, -84, 84
 	default: // conics
 		sgn := 1.0
@@ -138,7 +168,7 @@ func genSys(r *crsgen.R) *sys {
 			latName, lonName = "latitude_of_center", "longitude_of_center"
 			s.ogc = true
 		}
-		s.wkt = `PROJCS["Verif_Conic",` + geog + `,PROJECTION["` + pname + `"]` + esri("False_Easting", F(fe), "False_Northing", F(fn), lonName, F(lon0), "Standard_Parallel_1", F(l1), "Standard_Parallel_2", F(l2), latName, F(l0)) + "," + unitWKT + "]"
+		s.wkt = projcs("Verif_Conic", pname, unitWKT, "False_Easting", F(fe), "False_Northing", F(fn), lonName, F(lon0), "Standard_Parallel_1", F(l1), "Standard_Parallel_2", F(l2), latName, F(l0))
 		s.dlon = 170
 		if sgn > 0 {
 			s.latMin, s.latMax = 5, 85
@@ -204,6 +234,9 @@ func runSpelling(c *core.Ctx) {
 		spelling = "ogc"
 	}
 	c.Count("spelling." + spelling)
+	if s.unitFirst {
+		c.Count("section_order.unit_before_parameters")
+	}
 	switch s.towgs {
 	case 0:
 		c.Count("towgs84.none")
